@@ -75,6 +75,14 @@ def warmup():
          'fields': [{'k': 'n', 'o': [1, 2, 3], 'n': [2, 5]}]})
     run({'op': 'table', 'kd': 'int64', 'okeys': [], 'ovf': [], 'nkeys': [],
          'fields': [{'k': 's', 'o': [], 'n': []}]})
+    # the forked children must not share an open h5py file / Session with the parent
+    global _sess, _ds
+    try:
+        _sess.close()
+    except Exception:
+        pass
+    _sess = _ds = None
+    _cache.clear()
 
 
 def _str(bs):
